@@ -493,6 +493,11 @@ func (t *Type) GetAttrOrNil(name string) Object {
 		return res
 	}
 	// Now look through base classes etc
+	if t.Mro == nil {
+		// an instance has no MRO of its own: what it does not hold
+		// itself comes from the classes its type inherits from
+		return t.Type().Lookup(name)
+	}
 	return t.Lookup(name)
 }
 
